@@ -622,6 +622,10 @@ func (c *VirtualTable) Update(ctx context.Context, key interface{}, values map[i
 	if !ok || old.Deleted {
 		return nil
 	}
+	// An UPDATE does not change whether the row exists: carry the row's own
+	// insert/delete time so that a DELETE on another writer is not overridden
+	// just because this UPDATE has a later write time.
+	new.DeleteUpdateOffset = durationpb.New(ot.Add(old.DeleteUpdateOffset.AsDuration()).Sub(t))
 	new.ColumnValues = make(map[string]*v1proto.ColumnValue)
 	for i, v := range values {
 		if i == c.KeyCol {
